@@ -153,7 +153,7 @@ Definition hdr_result (lim : limits) (o : oracle) (evs : acc) (h : hres) : fres 
   | HErr ls e => (hs ls false, evs, RErr e)
   | HPartial ls tl =>
     if has_byte 10 tl then (hs ls false, evs, RErr EBadMessage)
-    else if limit_of (max_line lim) (max_field lim) ls <? lenN tl then (hs ls false, evs, RErr ELineTooLong)
+    else if limit_of (max_line lim) (max_field lim) ls <? tail_len tail_check_discounts_cr tl then (hs ls false, evs, RErr ELineTooLong)
     else (mkS ls tl None false false false 0, evs, ROk [])
   end.
 
@@ -171,7 +171,7 @@ Proof.
   rewrite frun_step by apply inv_f_hs. destruct b as [|a r].
   - cbn [step_f blk_run]. change (find_crlf []) with (@None (bytes * bytes)).
     unfold hdr_result. cbn [has_byte].
-    destruct (limit_of _ _ ls0 <? lenN _) eqn:E; [unfold lenN in E; cbn [length] in E; lia|]. reflexivity.
+    destruct (limit_of _ _ ls0 <? tail_len _ _) eqn:E; [unfold tail_len, lenN in E; cbn [length last] in E; destruct tail_check_discounts_cr; cbn in E; lia|]. reflexivity.
   - unfold hs at 1. cbn [step_f payload upgraded lines tail pending_upgrade should_close in_flight].
     rewrite Hq. change (0 <? 0) with false. cbn [andb blk_run].
     destruct (find_crlf (a :: r)) as [[line rest]|] eqn:E.
